@@ -4,13 +4,14 @@ import Verif.Model.AcmeAuth
 
   `req`  — one request against the world as the harness observed it just before sending:
     req v=2 m=POST p=x<hex chi pattern>
-        pid= pname= pknown= url= ct=0..3 cpath= parsed= fresh= tgt= tgt2= plok= deact= only= ckey= csame=        (request)
+        pid= pname= pknown= url= ct=0..3 cpath= parsed= fresh= tgt= tgt2= plok= deact= only= ckey= csame= attest= attp=        (request)
         ns= ue= ac=rsa|eced|other alg= es= short= jwk=-|isRsa.bytes.valid.thumb.alg
         kid= kb= kpre= nonce= jurl=!|n ver=-|thumb:pRSB,… pe=                                   (parsed JWS)
         nl=0|1  accs=-|id:key:keyAlg:status:loc:provId:provName,…                               (world)
         ord=-|id:acct:prov,…  az=…  ch=…  cert=-|id:acct:revoked,…
     numbers are interned strings (0 = ""), flags 0/1, status v|d|r, ver flags = plain,padR,padS,padRS.
     Output: <verdict> n=<nonce live before><after> acc=<status of account kb afterwards|-> rev=<cert tgt revoked afterwards|->
+            fp=<device-attest case: fingerprint written into the authorization of the URL 0|1, else ->
       verdict = ok | <status>:<problem type> | crash | no-such-route
 
   `route` — what the (pasted / regenerated) table says about a route of the real router:
@@ -116,7 +117,7 @@ def evalReq (kv : List (String × String)) : Option String := do
     url := (← nat kv "url"), ct := (← nat kv "ct"), certPath := (← flag kv "cpath"), parsed := (← flag kv "parsed"), jws,
     fresh := (← nat kv "fresh"), target := (← nat kv "tgt"), target2 := (← nat kv "tgt2"),
     payloadOk := (← flag kv "plok"), wantDeactivate := (← flag kv "deact"), onlyExisting := (← flag kv "only"),
-    certKey := (← nat kv "ckey"), certSame := (← flag kv "csame") }
+    certKey := (← nat kv "ckey"), certSame := (← flag kv "csame"), attest := (← flag kv "attest"), attPayload := (← nat kv "attp") }
   let nl ← flag kv "nl"
   let w : World := {
     nonces := if nl then [jws.nonce] else [],
@@ -132,7 +133,11 @@ def evalReq (kv : List (String × String)) : Option String := do
   let revS := match h, findCert w' rq.target with
     | .revokeCert, some x => if x.revoked then "1" else "0"
     | _, _ => "-"
-  pure s!"{verdict} n={if nl then 1 else 0}{if after then 1 else 0} acc={accS} rev={revS}"
+  let fpS := match h, r with
+    | .getChallenge, .ok (.attested _ _) => "1"
+    | .getChallenge, _ => if rq.attest then "0" else "-"
+    | _, _ => "-"
+  pure s!"{verdict} n={if nl then 1 else 0}{if after then 1 else 0} acc={accS} rev={revS} fp={fpS}"
 
 def evalRoute (kv : List (String × String)) : Option String := do
   let m ← method? (← lookup kv "m")
